@@ -267,6 +267,7 @@ Lemma read_loop_spec fuel : forall s buf, (length (rq s) < fuel)%nat ->
            | LDone => log s' = log s ++ map R ps /\ has_line_ending buf' = true
                       /\ (forall ps0 p, ps = ps0 ++ [p] -> has_line_ending (buf ++ concat ps0) = false)
            | LErr => log s' = log s ++ map R ps ++ [E] /\ has_line_ending buf' = false /\ rq s' = [] /\ closed s = true
+           | LTooLong => log s' = log s ++ map R ps /\ has_line_ending buf' = false /\ MAX_AUTH_LINE_LEN < len buf'
            | LBlocked => log s' = log s ++ map R ps /\ has_line_ending buf' = false /\ rq s' = [] /\ closed s = false
            | LFuel => False
            end
@@ -276,7 +277,9 @@ Proof.
   destruct (has_line_ending buf) eqn:Eh.
   - exists []. cbn [concat map app]. rewrite !app_nil_r. repeat split; auto.
     intros ps0 p H. destruct ps0; discriminate.
-  - unfold sock_read. destruct (rq s) as [|p q] eqn:Erq.
+  - destruct (N.ltb_spec MAX_AUTH_LINE_LEN (len buf)) as [Hlong|Hshort].
+    { exists []. cbn [concat map app]. rewrite !app_nil_r. repeat split; auto. }
+    unfold sock_read. destruct (rq s) as [|p q] eqn:Erq.
     + destruct (closed s) eqn:Ec.
       * exists []. cbn [concat map app rq log closed future]. rewrite !app_nil_r. repeat split; auto.
       * exists []. cbn [concat map app]. rewrite !app_nil_r, Erq. repeat split; auto.
@@ -293,6 +296,7 @@ Proof.
         -- cbn [concat]. now rewrite app_nil_r.
         -- cbn [concat]. rewrite app_assoc. now apply (Hstop ps0 p0).
       * destruct Htag as (El & Hh & Hq & Hc). rewrite El, <- app_assoc. cbn [app]. rewrite <- app_assoc in Hh. repeat split; auto.
+      * destruct Htag as (El & Hh & Hl). rewrite El, <- app_assoc. cbn [app]. rewrite <- app_assoc in Hh, Hl. repeat split; auto.
       * destruct Htag as (El & Hh & Hq & Hc). rewrite El, <- app_assoc. cbn [app]. rewrite <- app_assoc in Hh. repeat split; auto.
       * exact Htag.
 Qed.
@@ -323,6 +327,7 @@ Lemma read_message_spec fuel s : (length (rq s) < fuel)%nat ->
            | RmErr => (log s' = log s ++ map R ps
                        /\ exists line dropped, first_line (concat ps) line dropped /\ utf8_valid line = false)
                       \/ (log s' = log s ++ map R ps ++ [E] /\ ~ has_crlf (concat ps) /\ rq s' = [] /\ closed s = true)
+                      \/ (log s' = log s ++ map R ps /\ ~ has_crlf (concat ps) /\ MAX_AUTH_LINE_LEN < len (concat ps))
            | RmBlocked => log s' = log s ++ map R ps /\ ~ has_crlf (concat ps) /\ rq s' = [] /\ closed s = false
            | RmPanic | RmFuel => False
            end
@@ -340,26 +345,36 @@ Proof.
       exists ps0, p. split; [reflexivity|]. specialize (Hstop ps0 p eq_refl). cbn [app] in Hstop.
       apply no_line_ending_spec in Hstop. split; [exact Hstop|]. eapply stops_early_intro; eauto.
     + exists ps. repeat split; auto. left. split; [exact El|]. eauto.
-  - destruct Htag as (El & Hh & Hq & Hc). exists ps. repeat split; auto. right. apply no_line_ending_spec in Hh. auto.
+  - destruct Htag as (El & Hh & Hq & Hc). exists ps. repeat split; auto. right. left. apply no_line_ending_spec in Hh. auto.
+  - destruct Htag as (El & Hh & Hl). exists ps. repeat split; auto. right. right. apply no_line_ending_spec in Hh. auto.
   - destruct Htag as (El & Hh & Hq & Hc). exists ps. apply no_line_ending_spec in Hh. repeat split; auto.
   - destruct Htag.
 Qed.
 
 (* ================================================================ the protocol, as the property text has it *)
 (* what the client reads in answer to one of its lines, and how it must judge it *)
-Inductive reply (word : list N) : list event -> auth_res -> Prop :=
+Inductive reply_shape (word : list N) : list event -> auth_res -> Prop :=
 | ReplyAccept ps line dropped :        (* a complete UTF-8 line that starts with the expected word *)
     first_line (concat ps) line dropped -> stops_early ps dropped ->
-    utf8_valid line = true -> starts_with word line = true -> reply word (map R ps) AOk
+    utf8_valid line = true -> starts_with word line = true -> reply_shape word (map R ps) AOk
 | ReplyReject ps line dropped :        (* a complete UTF-8 line that does not (REJECTED, ERROR, garbage, ...) *)
     first_line (concat ps) line dropped -> stops_early ps dropped ->
-    utf8_valid line = true -> starts_with word line = false -> reply word (map R ps) ARejected
+    utf8_valid line = true -> starts_with word line = false -> reply_shape word (map R ps) ARejected
 | ReplyNotUtf8 ps line dropped :       (* a complete line that is not UTF-8 *)
-    first_line (concat ps) line dropped -> utf8_valid line = false -> reply word (map R ps) AErr
+    first_line (concat ps) line dropped -> utf8_valid line = false -> reply_shape word (map R ps) AErr
 | ReplyEof ps :                        (* the peer closed before completing a line *)
-    ~ has_crlf (concat ps) -> reply word (map R ps ++ [E]) AErr
+    ~ has_crlf (concat ps) -> reply_shape word (map R ps ++ [E]) AErr
+| ReplyTooLong ps :                    (* more than MAX_AUTH_LINE_LEN bytes without a line ending: given up *)
+    ~ has_crlf (concat ps) -> MAX_AUTH_LINE_LEN < len (concat ps) -> reply_shape word (map R ps) AErr
 | ReplyBlocked ps :                    (* the peer is silent with the socket open: the client waits in read() *)
-    ~ has_crlf (concat ps) -> reply word (map R ps) ABlocked.
+    ~ has_crlf (concat ps) -> reply_shape word (map R ps) ABlocked.
+
+(* whatever the peer sends, one reply costs at most MAX_AUTH_LINE_LEN + 1 read calls (each returns at least
+   one byte, or 0 once) and at most MAX_AUTH_LINE_LEN + 512 bytes (the size of the read buffer) *)
+Definition within_limits (evs : list event) : Prop :=
+  len evs <= MAX_AUTH_LINE_LEN + 1 /\ len (received evs) <= MAX_AUTH_LINE_LEN + 512.
+Definition reply (word : list N) (evs : list event) (a : auth_res) : Prop :=
+  reply_shape word evs a /\ within_limits evs.
 
 Definition accepted (word r : list N) : Prop :=
   exists line dropped, first_line r line dropped /\ utf8_valid line = true /\ starts_with word line = true.
@@ -429,9 +444,88 @@ Proof.
   now rewrite app_assoc.
 Qed.
 
+(* ---------------------------------------------------------------- limits that do not depend on the script *)
+(* what read() returns: at least one byte, at most the 512 bytes of tmpbuf *)
+Definition piece_ok (p : list N) : Prop := p <> [] /\ (length p <= TMPBUF)%nat.
+Definition wf (s : sock) : Prop := Forall piece_ok (rq s).
+
+Lemma piece_ok_len p : piece_ok p -> 1 <= len p <= 512.
+Proof. intros [Hne Hl]. unfold TMPBUF in Hl. destruct p; [congruence|]. unfold len. cbn [length] in *. lia. Qed.
+Lemma step_pieces_ok st : Forall piece_ok (step_pieces st).
+Proof.
+  unfold step_pieces. induction (chunks st) as [|c cs IH]; cbn [flat_map]; [constructor|].
+  apply Forall_app. split; [apply cut_bounds|exact IH].
+Qed.
+Lemma wf_init scr : wf (sock_init scr).
+Proof. apply step_pieces_ok. Qed.
+Lemma wf_write s b line s' : wf s -> sock_write s b line = Some s' -> wf s'.
+Proof.
+  unfold sock_write, wf. intros Hw. destruct (closed s); [discriminate|].
+  destruct line; [destruct (future s) as [|st fu]|]; intros H; inversion H; subst; cbn [rq]; auto.
+  apply Forall_app. split; [exact Hw|apply step_pieces_ok].
+Qed.
+
+Lemma received_app a b : received (a ++ b) = received a ++ received b.
+Proof. unfold received. now rewrite reads_app, concat_app. Qed.
+
+(* the loop makes at most MAX_AUTH_LINE_LEN + 1 - len buf read calls and never holds more than
+   MAX_AUTH_LINE_LEN + 512 bytes (unless it was handed more) *)
+Lemma read_loop_bounds fuel : forall s buf, wf s ->
+  match read_loop fuel s buf with
+  | (tag, s', buf') =>
+      wf s' /\ len (log s') <= len (log s) + (MAX_AUTH_LINE_LEN + 1 - len buf)
+      /\ len buf' <= N.max (len buf) (MAX_AUTH_LINE_LEN + 512)
+      /\ exists d, buf' = buf ++ d /\ received (log s') = received (log s) ++ d
+  end.
+Proof.
+  induction fuel as [|f IH]; intros s buf Hw; cbn [read_loop].
+  - repeat split; [exact Hw|lia|lia|]. exists []. now rewrite !app_nil_r.
+  - destruct (has_line_ending buf).
+    { repeat split; [exact Hw|lia|lia|]. exists []. now rewrite !app_nil_r. }
+    destruct (N.ltb_spec MAX_AUTH_LINE_LEN (len buf)) as [Hlong|Hshort].
+    { repeat split; [exact Hw|lia|lia|]. exists []. now rewrite !app_nil_r. }
+    unfold sock_read. destruct (rq s) as [|p q] eqn:Erq.
+    + destruct (closed s); cbn [log].
+      * repeat split; [unfold wf; cbn [rq]; constructor|rewrite len_app; change (len [E]) with 1; lia|lia|].
+        exists []. rewrite !app_nil_r. rewrite received_app. cbn. now rewrite app_nil_r.
+      * repeat split; [exact Hw|lia|lia|]. exists []. now rewrite !app_nil_r.
+    + unfold wf in Hw. rewrite Erq in Hw. inversion Hw as [|? ? Hp Hq]; subst.
+      set (s1 := {| rq := q; closed := closed s; future := future s; log := log s ++ [R p] |}).
+      specialize (IH s1 (buf ++ p) Hq). destruct (read_loop f s1 (buf ++ p)) as [[tag s'] buf'].
+      destruct IH as (Hw' & Hc & Hb & d & Eb & Er). cbn [log s1] in Hc, Er.
+      pose proof (piece_ok_len _ Hp) as Hpl. rewrite !len_app in *. change (len [R p]) with 1 in Hc.
+      repeat split; [exact Hw'|lia|lia|]. exists (p ++ d). rewrite app_assoc. split; [exact Eb|].
+      rewrite Er, received_app. unfold received at 2. cbn [reads concat]. now rewrite app_nil_r, <- app_assoc.
+Qed.
+
+Lemma read_message_bounds fuel s : wf s ->
+  match read_message fuel s [] with
+  | (r, s') => wf s' /\ len (log s') <= len (log s) + MAX_AUTH_LINE_LEN + 1
+               /\ exists d, received (log s') = received (log s) ++ d /\ len d <= MAX_AUTH_LINE_LEN + 512
+  end.
+Proof.
+  intros Hw. unfold read_message. pose proof (read_loop_bounds fuel s [] Hw) as H.
+  destruct (read_loop fuel s []) as [[tag s'] buf']. destruct H as (Hw' & Hc & Hb & d & Eb & Er).
+  cbn [app] in Eb. subst d. change (len (@nil N)) with 0 in *.
+  assert (Hres : wf s' /\ len (log s') <= len (log s) + MAX_AUTH_LINE_LEN + 1
+                 /\ exists d, received (log s') = received (log s) ++ d /\ len d <= MAX_AUTH_LINE_LEN + 512).
+  { split; [exact Hw'|]. split; [lia|]. exists buf'. split; [exact Er|lia]. }
+  destruct tag; try exact Hres. destruct (find_line_ending buf'); [|exact Hres].
+  destruct (utf8_valid (firstnN n buf')); exact Hres.
+Qed.
+
+Lemma limits_from_logs s1 s2 evs :
+  log s2 = log s1 ++ evs -> len (log s2) <= len (log s1) + MAX_AUTH_LINE_LEN + 1 ->
+  (exists d, received (log s2) = received (log s1) ++ d /\ len d <= MAX_AUTH_LINE_LEN + 512) ->
+  within_limits evs.
+Proof.
+  intros El Hc (d & Er & Hd). rewrite El in Hc, Er. rewrite len_app in Hc. rewrite received_app in Er.
+  apply app_inv_head in Er. subst d. split; [lia|exact Hd].
+Qed.
+
 (* one request/response exchange: write_message(msg), read_message into a fresh buffer, classify *)
 Lemma exchange_spec fuel word msg s :
-  (avail s < fuel)%nat ->
+  (avail s < fuel)%nat -> wf s ->
   match write_message msg s with
   | None => closed s = true
   | Some s1 =>
@@ -440,46 +534,57 @@ Lemma exchange_spec fuel word msg s :
       | (r, s2) => exists evs, ext s s2 (W (msg ++ CRLF) :: evs) /\ reply word evs (classify word r)
                                /\ future s2 = tl (future s)
                                /\ (classify word r = ABlocked -> silent (future s))
+                               /\ wf s2
       end
   end.
 Proof.
-  intros Hf. unfold write_message. destruct (sock_write s (msg ++ CRLF) true) as [s1|] eqn:Ew.
-  - pose proof (sock_write_line _ _ _ Ew) as [Hfut Hst].
+  intros Hf Hwf. unfold write_message. destruct (sock_write s (msg ++ CRLF) true) as [s1|] eqn:Ew.
+  - pose proof (sock_write_line _ _ _ Ew) as [Hfut Hst]. pose proof (wf_write _ _ _ _ Hwf Ew) as Hwf1.
     apply sock_write_some in Ew. destruct Ew as (Hc & Hext & _). split; [exact Hc|].
     destruct (ext_avail _ _ _ Hext) as [_ Hrq].
     pose proof (read_message_spec fuel s1 ltac:(lia)) as H.
+    pose proof (read_message_bounds fuel s1 Hwf1) as Hbd.
     destruct (read_message fuel s1 []) as [r s2]. destruct H as (ps & Erq & Ec & Efu & Hr).
+    destruct Hbd as (Hwf2 & Hcnt & Hrecv).
+    assert (Hlim : forall evs, log s2 = log s1 ++ evs -> within_limits evs).
+    { intros evs El. eapply limits_from_logs; eauto. }
     destruct r as [line| | | |]; cbn [classify].
-    + destruct Hr as (El & dropped & Hfl & Hu & Hstop). exists (map R ps). split; [|split; [|split]].
+    + destruct Hr as (El & dropped & Hfl & Hu & Hstop). exists (map R ps). split; [|split; [|split; [|split]]].
       * apply (ext_trans s s1 s2 [W (msg ++ CRLF)] (map R ps) Hext).
         rewrite <- (app_nil_r (map R ps)). apply ext_reads; auto. now rewrite app_nil_r.
-      * destruct (starts_with word line) eqn:Es; econstructor; eauto.
+      * split; [|now apply Hlim]. destruct (starts_with word line) eqn:Es; econstructor; eauto.
       * congruence.
       * destruct (starts_with word line); discriminate.
-    + destruct Hr as [(El & line & dropped & Hfl & Hu)|(El & Hn & Hq & Hcl)].
-      * exists (map R ps). split; [|split; [|split; [congruence|discriminate]]].
+      * exact Hwf2.
+    + destruct Hr as [(El & line & dropped & Hfl & Hu)|[(El & Hn & Hq & Hcl)|(El & Hn & Hl)]].
+      * exists (map R ps). split; [|split; [|split; [congruence|split; [discriminate|exact Hwf2]]]].
         -- apply (ext_trans s s1 s2 [W (msg ++ CRLF)] (map R ps) Hext).
            rewrite <- (app_nil_r (map R ps)). apply ext_reads; auto. now rewrite app_nil_r.
-        -- econstructor; eauto.
-      * exists (map R ps ++ [E]). split; [|split; [|split; [congruence|discriminate]]].
+        -- split; [|now apply Hlim]. econstructor; eauto.
+      * exists (map R ps ++ [E]). split; [|split; [|split; [congruence|split; [discriminate|exact Hwf2]]]].
         -- apply (ext_trans s s1 s2 [W (msg ++ CRLF)] (map R ps ++ [E]) Hext). apply ext_reads; auto.
-        -- now constructor.
-    + destruct Hr as (El & Hn & Hq & Hcl). exists (map R ps). split; [|split; [|split]].
+        -- split; [|now apply Hlim]. now constructor.
+      * exists (map R ps). split; [|split; [|split; [congruence|split; [discriminate|exact Hwf2]]]].
+        -- apply (ext_trans s s1 s2 [W (msg ++ CRLF)] (map R ps) Hext).
+           rewrite <- (app_nil_r (map R ps)). apply ext_reads; auto. now rewrite app_nil_r.
+        -- split; [|now apply Hlim]. now apply ReplyTooLong.
+    + destruct Hr as (El & Hn & Hq & Hcl). exists (map R ps). split; [|split; [|split; [|split]]].
       * apply (ext_trans s s1 s2 [W (msg ++ CRLF)] (map R ps) Hext).
         rewrite <- (app_nil_r (map R ps)). apply ext_reads; auto. now rewrite app_nil_r.
-      * now constructor.
+      * split; [|now apply Hlim]. now constructor.
       * congruence.
       * intros _. rewrite Hq, app_nil_r in Erq. subst ps. unfold silent.
         destruct (future s) as [|st fu]; [exact I|]. destruct Hst as [Hrq1 Hcl1]. split; [congruence|].
         intros Hh. apply Hn. rewrite Hrq1, concat_app. apply has_crlf_app_r.
         unfold step_pieces. now rewrite concat_flat_map_pieces.
+      * exact Hwf2.
     + destruct Hr.
     + destruct Hr.
   - now apply sock_write_none in Ew.
 Qed.
 
 Lemma reply_total word evs a : reply word evs a -> a <> APanic /\ a <> AFuel.
-Proof. intros H. inversion H; split; discriminate. Qed.
+Proof. intros [H _]. inversion H; split; discriminate. Qed.
 
 Lemma finish_spec s : match finish s with
                       | (res, s') => (res = CErr /\ s' = s /\ closed s = true)
@@ -498,22 +603,22 @@ Definition stalls (with_fd : bool) (fu : list step) : Prop :=
 
 (* every run of the model is a conforming run, and the pieces are accounted for *)
 Theorem connect_on_conforms fuel uid hex with_fd s0 :
-  get_uid_as_hex uid = Ok hex -> (avail s0 < fuel)%nat ->
+  get_uid_as_hex uid = Ok hex -> (avail s0 < fuel)%nat -> wf s0 ->
   match connect_on fuel uid with_fd s0 with
   | (res, s) => exists evs, ext s0 s evs /\ conforming hex with_fd evs res
                             /\ (res = CBlocked -> stalls with_fd (future s0))
   end.
 Proof.
-  intros Hhex Hf. unfold connect_on, do_auth.
+  intros Hhex Hf Hwf0. unfold connect_on, do_auth.
   destruct (sock_write s0 NUL false) as [s1|] eqn:Ew0.
   2:{ cbn [lift]. exists []. split; [apply ext_refl|split; [constructor|discriminate]]. }
-  pose proof (sock_write_noline _ _ _ Ew0) as Hfut1.
+  pose proof (sock_write_noline _ _ _ Ew0) as Hfut1. pose proof (wf_write _ _ _ _ Hwf0 Ew0) as Hwf1.
   apply sock_write_some in Ew0. destruct Ew0 as (Hc0 & Hext0 & Hc1). specialize (Hc1 eq_refl).
   rewrite Hhex. destruct (ext_avail _ _ _ Hext0) as [Hav1 _].
-  pose proof (exchange_spec fuel OK_ (AUTH_EXTERNAL ++ hex) s1 ltac:(lia)) as H1.
+  pose proof (exchange_spec fuel OK_ (AUTH_EXTERNAL ++ hex) s1 ltac:(lia) Hwf1) as H1.
   destruct (write_message (AUTH_EXTERNAL ++ hex) s1) as [s2|]; [|congruence].
   destruct H1 as [_ H1]. destruct (read_message fuel s2 []) as [r1 s3].
-  destruct H1 as (evs1 & Hext1 & Hrep1 & Hfut3 & Hsil1). rewrite Hfut1 in Hfut3, Hsil1.
+  destruct H1 as (evs1 & Hext1 & Hrep1 & Hfut3 & Hsil1 & Hwf3). rewrite Hfut1 in Hfut3, Hsil1.
   replace ((AUTH_EXTERNAL ++ hex) ++ CRLF) with (AUTH_LINE hex) in Hext1 by (unfold AUTH_LINE; now rewrite app_assoc).
   pose proof (ext_trans _ _ _ _ _ Hext0 Hext1) as Hext03. cbn [app] in Hext03.
   destruct (reply_total _ _ _ Hrep1) as [Hnp1 Hnf1].
@@ -522,11 +627,11 @@ Proof.
     destruct (ext_avail _ _ _ Hext03) as [Hav3 _].
     destruct with_fd.
     + unfold negotiate_unix_fds.
-      pose proof (exchange_spec fuel AGREE_UNIX_FD NEGOTIATE_UNIX_FD s3 ltac:(lia)) as H2.
+      pose proof (exchange_spec fuel AGREE_UNIX_FD NEGOTIATE_UNIX_FD s3 ltac:(lia) Hwf3) as H2.
       destruct (write_message NEGOTIATE_UNIX_FD s3) as [s4|].
       2:{ cbn [lift]. eexists. split; [exact Hext03|split; [now apply RunNegFailed|discriminate]]. }
       destruct H2 as [_ H2]. destruct (read_message fuel s4 []) as [r2 s5].
-      destruct H2 as (evs2 & Hext2 & Hrep2 & _ & Hsil2). rewrite Hfut3 in Hsil2. fold NEG_LINE in Hext2.
+      destruct H2 as (evs2 & Hext2 & Hrep2 & _ & Hsil2 & _). rewrite Hfut3 in Hsil2. fold NEG_LINE in Hext2.
       pose proof (ext_trans _ _ _ _ _ Hext03 Hext2) as Hext05. cbn [app] in Hext05.
       destruct (reply_total _ _ _ Hrep2) as [Hnp2 Hnf2].
       destruct (classify AGREE_UNIX_FD r2) eqn:Ecl2; try congruence.
@@ -584,12 +689,13 @@ Lemma reply_received word evs a : reply word evs a ->
              /\ (a = ARejected -> exists line dropped, first_line (concat ps) line dropped /\ utf8_valid line = true /\ starts_with word line = false)
              /\ (a = ABlocked -> ~ has_crlf (concat ps)).
 Proof.
-  intros H. inversion H; subst; exists ps; unfold received.
+  intros [H _]. inversion H; subst; exists ps; unfold received.
   - rewrite reads_map_R, sent_map_R. repeat split; auto; try discriminate. + intros; apply segs_map_R. + intros _. exists line, dropped; auto.
   - rewrite reads_map_R, sent_map_R. repeat split; auto; try discriminate. + intros; apply segs_map_R. + intros _. exists line, dropped; auto.
   - rewrite reads_map_R, sent_map_R. repeat split; auto; try discriminate. intros; apply segs_map_R.
   - rewrite reads_app, reads_map_R, sent_app, sent_map_R. cbn [reads sent app]. rewrite app_nil_r. repeat split; auto; try discriminate.
     intros x r t. rewrite <- app_assoc, segs_map_R. reflexivity.
+  - rewrite reads_map_R, sent_map_R. repeat split; auto; try discriminate. intros; apply segs_map_R.
   - rewrite reads_map_R, sent_map_R. repeat split; auto; try discriminate. intros; apply segs_map_R.
 Qed.
 
@@ -768,7 +874,7 @@ Proof. unfold avail, sock_init, total_pieces, fpieces. cbn [rq future]. now rewr
 Lemma reply_length word evs a : reply word evs a ->
   (length evs <= length (reads evs) + 1)%nat /\ (a = AOk -> length evs = length (reads evs)).
 Proof.
-  intros H. inversion H; subst; rewrite ?reads_app, ?reads_map_R, ?app_length, ?map_length; cbn [reads length];
+  intros [H _]. inversion H; subst; rewrite ?reads_app, ?reads_map_R, ?app_length, ?map_length; cbn [reads length];
     (split; [lia|try discriminate; auto]).
 Qed.
 Lemma conforming_length hex with_fd evs res :
@@ -778,6 +884,22 @@ Proof.
     repeat match goal with Hr : reply _ _ _ |- _ => apply reply_length in Hr; destruct Hr as [? ?] end;
     repeat match goal with Hr : AOk = AOk -> _ |- _ => specialize (Hr eq_refl) end;
     rewrite ?reads_app, ?app_length; cbn [length reads]; rewrite ?reads_app, ?app_length; cbn [length reads]; lia.
+Qed.
+
+(* limits of a whole run, whatever the script: at most 2 * (MAX_AUTH_LINE_LEN + 1) read calls plus the four
+   writes, and at most 2 * (MAX_AUTH_LINE_LEN + 512) bytes taken from the peer *)
+Lemma received_W x t : received (W x :: t) = received t.
+Proof. reflexivity. Qed.
+Theorem conforming_bounded hex with_fd evs res :
+  conforming hex with_fd evs res ->
+  len evs <= 2 * (MAX_AUTH_LINE_LEN + 1) + 4 /\ len (received evs) <= 2 * (MAX_AUTH_LINE_LEN + 512).
+Proof.
+  intros H. inversion H; subst; clear H;
+    repeat match goal with Hr : reply _ _ _ |- _ => destruct Hr as [_ [? ?]] end;
+    rewrite ?received_W, ?received_app, ?received_W, ?received_app, ?received_W;
+    rewrite ?len_cons, ?len_app, ?len_cons, ?len_app, ?len_cons;
+    change (received []) with (@nil N); change (received [W BEGIN_LINE]) with (@nil N); change (len (@nil N)) with 0;
+    change (len (@nil event)) with 0; unfold MAX_AUTH_LINE_LEN in *; lia.
 Qed.
 
 (* A: every run conforms to the protocol; the AUTH argument is the hex of the decimal uid *)
@@ -791,7 +913,7 @@ Proof.
   intros Hu. destruct (get_uid_as_hex_spec uid Hu) as (ds & Eh & Hd). exists ds. split; [exact Hd|].
   unfold connect_to_bus.
   pose proof (connect_on_conforms (fuel_for scr) uid (hex_of_digits ds) with_fd (sock_init scr) Eh) as H.
-  rewrite avail_init in H. specialize (H ltac:(unfold fuel_for; lia)).
+  rewrite avail_init in H. specialize (H ltac:(unfold fuel_for; lia) (wf_init scr)).
   destruct (connect_on (fuel_for scr) uid with_fd (sock_init scr)) as [res s].
   destruct H as (evs & [El _] & Hc & _). cbn [sock_init log app] in El. now rewrite El.
 Qed.
@@ -809,7 +931,7 @@ Proof.
   intros Hu. destruct (get_uid_as_hex_spec uid Hu) as (ds & Eh & Hd).
   unfold connect_to_bus.
   pose proof (connect_on_conforms (fuel_for scr) uid (hex_of_digits ds) with_fd (sock_init scr) Eh) as H.
-  rewrite avail_init in H. specialize (H ltac:(unfold fuel_for; lia)).
+  rewrite avail_init in H. specialize (H ltac:(unfold fuel_for; lia) (wf_init scr)).
   destruct (connect_on (fuel_for scr) uid with_fd (sock_init scr)) as [res s].
   destruct H as (evs & [El Hp] & Hc & Hb). cbn [sock_init log app] in El. rewrite El.
   destruct (conforming_total _ _ _ _ Hc) as [H1 H2]. split; [exact H1|]. split; [exact H2|]. split; [|exact Hb].
@@ -817,6 +939,42 @@ Proof.
   assert (Hr : (length (reads evs) <= total_pieces scr)%nat).
   { rewrite <- avail_init. unfold avail. rewrite <- Hp, app_length. lia. }
   lia.
+Qed.
+
+(* B': the same bounds for connect_to_bus, independent of the server's script (however long it is, and
+   whether or not it ever ends a line): system calls and bytes read *)
+Theorem auth_bounded uid with_fd scr :
+  uid < 2 ^ 32 ->
+  match connect_to_bus uid with_fd scr with
+  | (res, s) => len (log s) <= 2 * (MAX_AUTH_LINE_LEN + 1) + 4
+                /\ len (received (log s)) <= 2 * (MAX_AUTH_LINE_LEN + 512)
+  end.
+Proof.
+  intros Hu. destruct (auth_conforms uid with_fd scr Hu) as (ds & _ & H).
+  destruct (connect_to_bus uid with_fd scr) as [res s]. exact (conforming_bounded _ _ _ _ H).
+Qed.
+(* one read_message call on a fresh buffer: at most MAX_AUTH_LINE_LEN + 1 read calls, at most
+   MAX_AUTH_LINE_LEN + 512 bytes buffered *)
+Theorem read_message_bounded fuel s :
+  wf s ->
+  match read_message fuel s [] with
+  | (r, s') => len (log s') <= len (log s) + MAX_AUTH_LINE_LEN + 1
+               /\ exists d, received (log s') = received (log s) ++ d /\ len d <= MAX_AUTH_LINE_LEN + 512
+  end.
+Proof.
+  intros Hw. pose proof (read_message_bounds fuel s Hw) as H. destruct (read_message fuel s []) as [r s']. apply H.
+Qed.
+(* a reply line is given up exactly when more than MAX_AUTH_LINE_LEN bytes have been read without CR LF *)
+Theorem reply_too_long word evs :
+  reply word evs AErr ->
+  (exists ps, evs = map R ps /\ ~ has_crlf (concat ps) /\ MAX_AUTH_LINE_LEN < len (concat ps))
+  \/ (exists ps, evs = map R ps ++ [E] /\ ~ has_crlf (concat ps))
+  \/ (exists ps line dropped, evs = map R ps /\ first_line (concat ps) line dropped /\ utf8_valid line = false).
+Proof.
+  intros [H _]. inversion H; subst.
+  - right. right. exists ps, line, dropped. auto.
+  - right. left. exists ps. auto.
+  - left. exists ps. auto.
 Qed.
 
 (* a script answers when each reply that is reached completes a line or closes the socket *)
@@ -853,7 +1011,7 @@ Proof.
   intros Hu. destruct (get_uid_as_hex_spec uid Hu) as (ds & Eh & Hd).
   unfold connect_to_bus.
   pose proof (connect_on_conforms (fuel_for scr) uid (hex_of_digits ds) with_fd (sock_init scr) Eh) as H.
-  rewrite avail_init in H. specialize (H ltac:(unfold fuel_for; lia)).
+  rewrite avail_init in H. specialize (H ltac:(unfold fuel_for; lia) (wf_init scr)).
   destruct (connect_on (fuel_for scr) uid with_fd (sock_init scr)) as [res s].
   destruct H as (evs & [El Hp] & _ & _). cbn [sock_init log app rq future] in El, Hp. rewrite El.
   assert (Hfp : forall fu, concat (fpieces fu) = concat (map step_bytes fu)).
@@ -868,7 +1026,7 @@ Qed.
 Theorem accepted_reply_drops word evs :
   reply word evs AOk ->
   exists ps line dropped, evs = map R ps /\ first_line (concat ps) line dropped /\ stops_early ps dropped.
-Proof. intros H. inversion H; subst. exists ps, line, dropped. auto. Qed.
+Proof. intros [H _]. inversion H; subst. exists ps, line, dropped. auto. Qed.
 Lemma pieces_small c : (length c <= TMPBUF)%nat -> (length (pieces c) <= 1)%nat.
 Proof.
   unfold pieces. intros H. destruct c as [|x c]; [cbn; lia|]. cbn [length cut].
